@@ -307,6 +307,10 @@ def chk_data_nonempty(F, E, body, s):
     # index 0 of the first tuple component of take_input()'s payload
     if "take_input" not in show(body.expr(s.call.args[0])):
         return False
+    # ... and it IS index 0 (non-emptiness says nothing about data[k] for a counter k)
+    ix = strip_expr(body.expr(s.call.args[1])) if len(s.call.args) > 1 else ("?",)
+    if not (ix[0] == "const" and ix[1].get("int") == 0):
+        return False
     if not ti.calls_to("data::parse_data_until_colon"):
         return False
     # finish() is called on every path of parse_data_until_colon before returning
